@@ -187,9 +187,26 @@ def lambda_extents(src, tree=None):
                   for n in ast.walk(tree) if isinstance(n, ast.Lambda))
 
 
-def tab_event(rows, mod, lams):
+def tab_event(rows, mods, lams):
     return {'k': 'tab', 'scopes': [{f: r[f] for f in TAB_FIELDS} for r in rows],
-            'mod': [jutil.enc(m) for m in mod], 'lams': lams}
+            'mods': [[jutil.enc(m) for m in mod] for mod in mods], 'lams': lams}
+
+
+def import_paths(script, path, mod):
+    """Every dotted path under which `path` is importable given the sys.path the Script works with
+    (jedi picks the shortest; here e.g. the helper's own directory is on the environment's sys.path)."""
+    out = [list(mod)]
+    r = jutil.safe(lambda: script._inference_state.get_sys_path(add_parent_paths=False))
+    if r[0] == 'ok':
+        for e in r[1]:
+            e = str(e)
+            if e and path.startswith(e.rstrip(os.sep) + os.sep) and path.endswith('.py'):
+                parts = path[len(e.rstrip(os.sep)) + 1:-3].split(os.sep)
+                if parts[-1] == '__init__':
+                    parts = parts[:-1]
+                if parts and all(x.isidentifier() for x in parts) and parts not in out:
+                    out.append(parts)
+    return out
 
 
 def co_qualnames(src):
@@ -334,7 +351,7 @@ def replay_case(case):
     if lams != case['lams']:
         res['machinery'].append('lambda extents differ from ast: %s vs %s' % (case['lams'], lams))
         return res
-    events = [tab_event(rows, ['pk', 'mod'], lams)]
+    events = [tab_event(rows, [['pk', 'mod']], lams)]
     where = [None]
 
     def guard(fn, what, l, c):
@@ -489,7 +506,7 @@ def record_source(src, path, proj_root, mod, npos, nnames, seed):
     idents = sorted(idents[:npos]) if npos else sorted(idents)
     s = jutil.script(src, path=path, proj=jutil.project(proj_root))
     by_npos = {tuple(r['npos']): i for i, r in enumerate(rows, 1)}
-    events = [tab_event(rows, mod, lambda_extents(src, tree))]
+    events = [tab_event(rows, import_paths(s, path, mod), lambda_extents(src, tree))]
     where = [None]
     for (l, c) in idents:
         r = jutil.safe(lambda: s.get_context(l, c))
@@ -639,7 +656,7 @@ def run(ctx):
     ctx.coverage['exhaustive'] = True
     ctx.log('exhaustive: %d distinct states, %.0fs' % (res.distinct, res.wall))
 
-    if not quick and not os.environ.get('C18_SKIP_EXHAUSTIVE'):
+    if not quick and scale >= 1 and not os.environ.get('C18_SKIP_EXHAUSTIVE'):
         b2 = dict(items=4, depth=3, scopes=4, extras=2, units=units)
         r0 = run_tlc('Nesting', write_cfg(ctx, 'mc2.cfg', invs=['DesignMeetsReference'], **b2), workers=16,
                      timeout=6000)
@@ -694,7 +711,7 @@ def run(ctx):
     report_rejects(ctx, rej, cex_traces, cex_wheres, cex_srcs, 'TLC counterexample of CtxStrict')
 
     # ---- 2. emitted cases -> replay (spec -> code): a BFS slice of small programs + simulation walks
-    mod = 5 if quick else (67 if scale < 1 else 23)
+    mod = 5 if quick else (67 if scale < 1 else 41)
     eb = dict(items=3, depth=2, scopes=3, extras=1, units=units) if quick else \
         dict(items=4, depth=3, scopes=4, extras=2, units=units)
     cfg = write_cfg(ctx, 'emit.cfg', mod=mod, rem=ctx.seed % mod, invs=[], emit=True, **eb)
@@ -702,7 +719,7 @@ def run(ctx):
     ctx.add_tlc(res, 'case emission slice %d mod %d %s' % (ctx.seed % mod, mod, eb))
     cs = cases(res)
     sb = dict(items=7, depth=4, scopes=6, extras=3, units=units)
-    nsim = 60 if quick else (250 if scale < 1 else 800)
+    nsim = 60 if quick else (250 if scale < 1 else 500)
     cfg = write_cfg(ctx, 'sim.cfg', mod=1, rem=0, invs=['DesignMeetsReference'], emit=True, **sb)
     res = run_tlc('Nesting', cfg, workers=1, timeout=6000, simulate='num=%d' % nsim, depth=8, seed=ctx.seed)
     ctx.add_tlc(res, 'simulation walks with emission %s' % sb)
@@ -814,6 +831,8 @@ def run(ctx):
         'positions on whitespace / comments / blank lines are predicted by the Design (drift) but not judged',
         'full_name judged only for definitions all of whose enclosing scopes are classes',
         'corpus: full_name of definitions in __main__.py files is not judged (no unambiguous import path)',
+        'corpus: the module path in full_name may be any dotted path under which the file is importable from '
+        'the sys.path the Script works with (jedi picks the shortest)',
         'corpus: identifier tokens of tokenize; files whose def/async layout the table builder cannot '
         'read are skipped and counted']
     return None
